@@ -24,7 +24,7 @@ from harness import core, runfamily as rf, twin, units
 
 LEVEL = "model_checking"
 
-MECH = dict(MAScaleXi=True, MAreasXi2=True, MAreasPerLen=True, MJFactor=2, MK0OutUnits=True)
+MECH = dict(MAScaleXi=True, MAreasXi2=True, MAreasPerLen=True, MJFactor=2, MK0OutUnits=True, MSheetZMeter=True)
 INVS = ["DimensionlessInputsInvariant", "MatchesReference", "FluxPerTriangle", "FluxIsTwoPiFluxQuanta"]
 REF = [-6, -3, -6]
 TOL_SCALE = 1000          # quanta of 1e-12: relative 1e-9 (rounding is 1e-15, a wrong factor is >= 2)
@@ -77,7 +77,8 @@ def _run(ctx):
     if len(monos) != 27 or not tris:
         raise core.MachineryFailure(f"C08: TLC exported {len(monos)} unit systems and {len(tris)} triangles")
     # design canaries: each transcribed factor matters
-    canaries = [("MAScaleXi", False, "DimensionlessInputsInvariant"), ("MJFactor", 1, "MatchesReference")]
+    canaries = [("MAScaleXi", False, "DimensionlessInputsInvariant"), ("MJFactor", 1, "MatchesReference"),
+                ("MSheetZMeter", False, "DimensionlessInputsInvariant")]
     if not ctx.quick:
         canaries += [("MAreasXi2", False, "DimensionlessInputsInvariant"), ("MAreasPerLen", False, "DimensionlessInputsInvariant"),
                      ("MK0OutUnits", False, "DimensionlessInputsInvariant")]
@@ -101,6 +102,11 @@ def _run(ctx):
     edited = us[:3] if ctx.quick else us
     for n, u in enumerate(edited):
         jobs.append(("call", dict(module="harness.units", func="observe_solver", args=dict(u=u, kind="bar", history="layer-edit", prior_solver=bool(n % 2)))))
+    # the film lifted to the plane z = Z0 != 0 (Layer.z0 is 0 by default), the height given in every form the API offers: what the real
+    # solver hands to the applied potential as z, and where the public Biot-Savart function places the sheet
+    sheet_jobs = [dict(u=u, kind="bar", form=units.Z0_FORMS[n % len(units.Z0_FORMS)]) for n, u in enumerate(us[:4] if ctx.quick else us)]
+    for a_ in sheet_jobs:
+        jobs.append(("call", dict(module="harness.units", func="observe_sheet", args=a_)))
     jobs.append(("call", dict(module="harness.units", func="gauge_blocks", args=dict(sizes=[100, 2 ** 14 + 1, 2 ** 15 + 1, 70000]))))
     jobs.append(("call", dict(module="harness.units", func="exact_triangles", args=dict(tris=tris[: (60 if ctx.quick else 400)]))))
     res = rf.replay_all(ctx, jobs)
@@ -108,6 +114,8 @@ def _run(ctx):
     gauge_obs = res.pop()
     vals = units.constants(tdgl)
     by_u = {tuple(x["u"]): x["obs"] for x in res[: len(us)]}
+    sheet_obs = res[len(res) - len(sheet_jobs):]
+    res = res[: len(res) - len(sheet_jobs)]
     after_edit = res[len(us):]
     ref = by_u[tuple(REF)]
     # the dimensionless length of a terminal (an input of the model's DimJ): from the geometry that was requested — the terminal
@@ -155,6 +163,28 @@ def _run(ctx):
         traces.append({"tol": TOL_SCALE, "ev": abs_events(u, o) + ratio_events(u, o, REF, ref)})
         labels.append(("solver after an in-place layer edit", u))
         ctx.note_case(("solver after layer edit", tuple(u)), True)
+    sheet_by_u = {tuple(x["u"]): x for x in sheet_obs}
+    if tuple(REF) not in sheet_by_u:
+        raise core.MachineryFailure("C08: the lifted device was not observed in the reference unit system")
+    for x in sheet_obs:
+        u, o, o0 = x["u"], x["obs"], sheet_by_u[tuple(REF)]["obs"]
+        m = monos[tuple(u)]
+        if not (units.evaluate(m["SolverZ"], vals) != 0 and units.PHYS["Z0"] > 0 and o["n_calls"] >= 1):
+            raise core.MachineryFailure("C08: the lifted device lies in the plane z = 0, or the solver never asked for the applied potential: vacuous")
+        ev = []
+        for q, val in (("SolverZ", o["SolverZ"]), ("SheetZ", o["SheetZ"]), ("SheetZ", o["SheetZ_typed"])):
+            rq = units.quanta(val, units.evaluate(m[q], vals))
+            if q == "SolverZ":
+                rq = max(rq, int(min(units.RCLIP, round(o["SolverZ_spread"] / units.QUANTUM))))
+            ev.append({"ev": "abs", "q": q, "u": u, "m": m[q], "r": rq})
+        for q, a, b in (("SolverZ", o["SolverZ"], o0["SolverZ"]), ("SheetZ", o["SheetZ"], o0["SheetZ"]), ("SheetZ", o["SheetZ_typed"], o0["SheetZ_typed"])):
+            ratio = a / b if (b and a == a and b == b and abs(a) != float("inf") and abs(b) != float("inf")) else -1.0
+            e = int(round(math.log10(ratio))) if ratio > 0 else 999
+            ev.append({"ev": "ratio", "q": q, "u1": u, "u2": REF, "e": e, "r": units.quanta(ratio, 10.0 ** e) if ratio > 0 else units.RCLIP})
+        traces.append({"tol": TOL_SCALE, "ev": ev})
+        labels.append((f"film lifted to z0 = {units.Z0_UM} um (given as {x['form']}): z handed to the applied potential (SolverZ, in length units) "
+                       f"and height of the Biot-Savart sheet (SheetZ, metres)", u))
+        ctx.note_case(("sheet height", x["form"], tuple(u)), True)
     for g in gauge_obs:           # one gauge over all positions handed to the applied potential, however many
         qr = int(min(units.RCLIP, round(max(g["r_const"], g["r_flux"]) / units.QUANTUM)))
         traces.append({"tol": TOL_SCALE, "ev": [{"ev": "flux", "u": REF, "n": g["ntri"], "r": qr}]})
@@ -216,6 +246,11 @@ def _run(ctx):
         "no-screening/dynamic-epsilon": dict(kind="bar", dt=dt, solve_time=(16 if ctx.quick else 32) * dt - dt / 2, k=4, tolq=5, epsilon="pointwise"),
         "screening/fixed-dt": dict(kind="bar", dt=dt, solve_time=(6 if ctx.quick else 16) * dt - dt / 2, k=3, screening=True, screening_tol=1e-6, tolq=50),
     }
+    # the film in the plane z = Z0 != 0, in an applied field that depends on the height (B(Z0) = 1.5 B): fields / potentials at fixed
+    # points of the laboratory, against the harness' SI sums over a sheet at Z0 and against the equivalent flat problem
+    LIFT = "lifted film (z0 != 0)/height-dependent applied field"
+    fams[LIFT] = dict(kind="bar", dt=dt, solve_time=(12 if ctx.quick else 32) * dt - dt / 2, k=4, tolq=5, z0form="layer", reload=True,
+                      systems=[REF, [-9, 0, -3]] if ctx.quick else None)
     if not ctx.quick:
         fams["no-screening/adaptive"] = dict(kind="bar", dt=dt, dt_max=0.05, adaptive=True, solve_time=0.8, k=10, tolq=5, Bfactor=1.5)
         three_more = [[-9, 0, -3], [-3, -6, -9], [-6, -3, -3]]
@@ -224,10 +259,20 @@ def _run(ctx):
     jobs, tags = [], []
     variant = {}
     for label, a in fams.items():
-        for vi, u in enumerate(three + three_more):
-            jobs.append(("call", dict(module="harness.units", func="run_twin", args=dict({k: v for k, v in a.items() if k != "tolq"}, u=u, variant=vi))))
+        for vi, u in enumerate(a.get("systems") or three + three_more):
+            jobs.append(("call", dict(module="harness.units", func="run_twin", args=dict({k: v for k, v in a.items() if k not in ("tolq", "systems")}, u=u, variant=vi))))
             tags.append((label, u))
-        if a.get("reload"):        # history: the same problem on a device whose layer was first stated wrongly and corrected IN PLACE
+        if a.get("z0form"):        # the height given in the other forms of the API, and the equivalent problem in the plane z = 0
+            plain = {k: v for k, v in a.items() if k not in ("tolq", "post", "reload", "z0form", "systems")}
+            for u, form in zip([REF, [-9, -6, -9], [-3, 0, -3]] + ([] if ctx.quick else [[-9, 0, -3], [-6, -3, -3], [-3, -6, -9]]),
+                               ["translate", "translate-inplace", "layer-edit", "translate", "translate-inplace", "layer-edit"]):
+                jobs.append(("call", dict(module="harness.units", func="run_twin", args=dict(plain, u=u, z0form=form))))
+                tags.append((label, u))
+                variant[len(tags) - 1] = f" (height given as {form})"
+            jobs.append(("call", dict(module="harness.units", func="run_twin", args=dict(plain, u=REF, flat_equiv=True))))
+            tags.append((label, REF))
+            variant[len(tags) - 1] = " (the equivalent flat problem: film at z = 0 in the uniform field B(Z0), observed Z0 lower)"
+        if a.get("reload") and not a.get("z0form"):        # history: the same problem on a device whose layer was first stated wrongly and corrected IN PLACE
             jobs.append(("call", dict(module="harness.units", func="run_twin", args=dict({k: v for k, v in a.items() if k not in ("tolq", "post")},
                                                                                          u=[-9, -6, -9], layer_edit=True))))
             tags.append((label, [-9, -6, -9]))
@@ -286,10 +331,17 @@ def _run(ctx):
                     ev.append({"run": rid + " (last record)", "key": f"step{fr['step']}/probe phase difference at the frame", "q": [int(round(x * Q)) for x in fr["probe_phase_last_record"]]})
             for st, v in r_["K_A_per_m"].items():
                 ev.append({"run": rid, "key": f"step{st}/current_density[A/m]", "q": [int(round(x / scale["K"] * Q)) for x in v]})
+            # the absolute reference first: SI sums over the sheet currents written out by the harness (literal mu_0, XI; sheet at z0)
+            fscale = lambda st, base: max(1e-300, max(abs(x) for x in (refrun.get("fields_ref", {}).get(st, {}).get(base) or refrun["fields"][st][base])))
+            for st, fd in r_.get("fields_ref", {}).items():
+                for qn, v in fd.items():
+                    if qn in r_["fields"].get(st, {}):
+                        ev.append({"run": rid + f" (SI sums by the harness over a sheet in the plane z = {r_.get('z0_um', 0.0)} um)", "key": f"step{st}/{qn}",
+                                   "q": [int(max(-2e9, min(2e9, round(x / fscale(st, qn) * Q)))) for x in v]})
             for st, fd in r_["fields"].items():
                 for qn, v in fd.items():
                     base = qn.split(" via ")[0]          # the value obtained through `units=` must be the same physical value
-                    sc = max(1e-300, max(abs(x) for x in refrun["fields"][st][base]))
+                    sc = fscale(st, base)
                     ev.append({"run": rid + (" via units=" if " via " in qn else ""), "key": f"step{st}/{base}",
                                "q": [int(max(-2e9, min(2e9, round(x / sc * Q)))) for x in v]})
             ev.append({"run": rid, "key": "frames", "q": [fr["step"] for fr in r_["frames"]]})
@@ -315,7 +367,7 @@ def _run(ctx):
                     st = rl["step"]
                     ev.append({"run": rr_, "key": f"step{st}/current_density[A/m]", "q": qq(rl["K"], scale["K"])})
                     for qn, v in rl["fields"].items():
-                        ev.append({"run": rr_, "key": f"step{st}/{qn}", "q": qq(v, max(1e-300, max(abs(x) for x in refrun["fields"][st][qn])))})
+                        ev.append({"run": rr_, "key": f"step{st}/{qn}", "q": qq(v, fscale(st, qn))})
                     dsc = refrun["device"]
                     ev.append({"run": rid, "key": "device: xi, lambda, K0, Bc2 in SI", "q": [int(round(x / d0 * Q)) for x, d0 in zip(r_["device"], dsc)]})
                     ev.append({"run": rr_, "key": "device: xi, lambda, K0, Bc2 in SI", "q": [int(max(-2e9, min(2e9, round(x / d0 * Q)))) for x, d0 in zip(rl["device"], dsc)]})
@@ -326,6 +378,19 @@ def _run(ctx):
                     ev.append({"run": rid, "key": "continuation/abs_psi", "q": qq(cn["abs_psi"], 1.0)})
                     ev.append({"run": rid, "key": "continuation/current_density[A/m]", "q": qq(cn["K"], max(1e-300, max(abs(x) for x in refrun["continuation"]["K"])))})
             ctx.note_case((label, rid), len(r_["frames"]) >= 2)
+        if a.get("z0form"):         # vacuity: the film really is lifted in every form, and the observation points feel the height
+            lifted = [r_ for _, r_ in mine if r_.get("z0form")]
+            forms = {r_["z0form"] for r_ in lifted}
+            st = sorted(refrun["fields_ref"])[-1]
+            hi, lo = refrun["fields_ref"][st]["Bvec_total[T]"], refrun["fields_ref_flat"][st]["Bvec_total[T]"]
+            sens = max(abs(x - y) for x, y in zip(hi, lo)) / max(1e-300, max(abs(x) for x in hi))
+            film = units.GEOM["W"] * units.GEOM["H"]          # the cell areas the SI sums use tile the film the harness asked for
+            if abs(refrun["mesh_area_um2"] / film - 1) > 1e-9:
+                raise core.MachineryFailure(f"C08: the cells of the shared mesh cover {refrun['mesh_area_um2']} um^2, the film has {film} um^2")
+            if forms != set(units.Z0_FORMS) or any(not r_["z0_um"] for r_ in lifted) or len(lifted) != len(mine) - 1 or sens < 0.05:
+                raise core.MachineryFailure(f"C08: the lifted-film family is vacuous: forms {sorted(forms)}, sensitivity of the field to the height {sens:.3g}")
+            ctx.cov.setdefault("lifted_film", {}).update(z0_um=units.Z0_UM, forms=sorted(forms), runs=len(lifted),
+                                                         relative_change_of_the_field_if_the_sheet_were_at_z0_0=round(sens, 4))
         ttr.append({"tol": a["tolq"], "minruns": len(mine), "ev": ev, "label": label})
         ctx.sample({"family": label, "runs": [units.unit_names(u) for u, _ in mine], "frames": [fr["step"] for fr in refrun["frames"]],
                     "scales": scale, "tolerance_quanta": a["tolq"], "quantum": "1e-6 of the scale"}, limit=8)
